@@ -900,8 +900,16 @@ impl CxxCodeBodyTranslator {
                             .chain(formatted_args)
                             .join(" << ")
                     }
-                    BuiltinFunctionKind::Max => format!("std::max({})", formatted_args.join(", ")),
-                    BuiltinFunctionKind::Min => format!("std::min({})", formatted_args.join(", ")),
+                    BuiltinFunctionKind::Max => format!(
+                        "std::max{}({})",
+                        format_min_max_template_arg(args),
+                        formatted_args.join(", ")
+                    ),
+                    BuiltinFunctionKind::Min => format!(
+                        "std::min{}({})",
+                        format_min_max_template_arg(args),
+                        formatted_args.join(", ")
+                    ),
                     BuiltinFunctionKind::Tr => format!(
                         "QCoreApplication::translate({context:?}, {args})",
                         context = self.tr_context,
@@ -1014,6 +1022,28 @@ fn format_cxx_string_literal(s: &str) -> String {
 fn is_floating_point_rem(op: &BinaryOp, l: &tir::Operand, r: &tir::Operand) -> bool {
     matches!(op, BinaryOp::Arith(BinaryArithOp::Rem))
         && (l.type_desc() == TypeDesc::DOUBLE || r.type_desc() == TypeDesc::DOUBLE)
+}
+
+/// Explicit template argument needed if an integer literal isn't of the deduced operand type.
+///
+/// For example, `std::max(a0, 1)` doesn't compile if `a0` is unsigned.
+fn format_min_max_template_arg(args: &[tir::Operand]) -> &'static str {
+    let literal = args.iter().find_map(|a| match a {
+        tir::Operand::Constant(tir::Constant {
+            value: tir::ConstantValue::Integer(v),
+            ..
+        }) => Some(*v),
+        _ => None,
+    });
+    match literal {
+        Some(_) if args.iter().any(|a| a.type_desc() == TypeDesc::UINT) => "<uint>",
+        Some(v) if args.iter().any(|a| a.type_desc() == TypeDesc::INT)
+            && !(-i64::from(i32::MAX)..=i64::from(i32::MAX)).contains(&v) =>
+        {
+            "<int>"
+        }
+        _ => "",
+    }
 }
 
 fn member_access_op(a: &tir::Operand) -> &'static str {
